@@ -520,6 +520,19 @@ func scenarios(c *runlib.Ctx) (all []e3.Scenario, lims []e3.Limits) {
 	add(&onceScenario{Kind: "once", Gate: true, Progs: [][]string{{"k1"}, {"k2", "k2"}, {"k1"}}}, bounded)
 	add(&onceScenario{Kind: "once", Gate: true, Progs: [][]string{{"k1", "k2"}, {"k2"}, {"k1"}}}, bounded)
 
+	// Many keys (past any preallocated table): the construction of k1 is in
+	// flight while another thread constructs 63..129 other keys, then a third
+	// thread asks for k1.
+	for _, n := range []int{15, 16, 17, 63, 64, 65, 66, 129} {
+		var many []string
+		for i := 0; i < n; i++ {
+			many = append(many, fmt.Sprintf("m%03d", i))
+		}
+
+		add(&onceScenario{Kind: "once", Gate: true, Progs: [][]string{{"k1"}, many, {"k1"}}},
+			e3.Limits{MaxBound: runlib.Pick(c, 1, 2), MaxExecs: 2_000_000})
+	}
+
 	// Semaphore.
 	for capn := uint(0); capn <= 2; capn++ {
 		for pre := 0; pre <= 2; pre++ {
